@@ -38,9 +38,9 @@ Proof. exact shape_sv_inv. Qed.
 Print Assumptions sv_inv_holds.
 
 (* each concrete step IS the step of the abstract atomic cell (same events in the same order, same resulting cell and
-   blocked sets); guard: an incrF whose sum reaches 2^60 (see incrF_wrap_refuted) *)
+   blocked sets), for every operation *)
 Theorem sv_refines_cell : forall x t o x' evs,
-  shape x -> incr_in_range x o -> step_var x t o = (x', evs) -> spec_step (abs x) t o = (abs x', evs).
+  shape x -> step_var x t o = (x', evs) -> spec_step (abs x) t o = (abs x', evs).
 Proof. exact step_refines. Qed.
 Print Assumptions sv_refines_cell.
 
@@ -119,7 +119,7 @@ Theorem overflow_rejected : forall x t v, two60 <= v ->
 Proof. exact overflow_rejected_l. Qed.
 Print Assumptions overflow_rejected.
 
-(* incrF: n calls by any tasks -> payload = init + sum (mod 2^60), each call returns the running sum; any order gives the same payload *)
+(* incrF: n calls by any tasks -> payload = init + sum (mod 2^60), each call returns the running sum mod 2^60 (= the payload right after it); any order gives the same payload *)
 Theorem incrF_atomic : forall l x x' rets,
   shape x -> run_incr x l = (x', rets) ->
   shape x' /\ data_of (word x') = wrap60 (data_of (word x) + sum_incs l) /\
@@ -133,16 +133,10 @@ Theorem incrF_any_order : forall l l' x x1 r1 x2 r2,
 Proof. exact incrF_any_order_l. Qed.
 Print Assumptions incrF_any_order.
 
-(* "returns the new value": holds while the sum stays below 2^60 ... *)
-Theorem incrF_result_partial : forall x t inc x' evs,
-  shape x -> data_of (word x) + inc < two60 -> step_var x t (IncrF inc) = (x', evs) ->
-  hd Fault evs = Ret t RC_SUCCESS (Some (data_of (word x'))) /\ data_of (word x') = data_of (word x) + inc.
-Proof. exact incrF_result_partial_l. Qed.
-Print Assumptions incrF_result_partial.
-
-(* ... and fails beyond: payload 2^60-1, incrF 1 returns 2^60 while the variable now holds 0 (neither rejected nor reduced) *)
-Theorem incrF_wrap_refuted : exists x t inc x' evs,
-  shape x /\ step_var x t (IncrF inc) = (x', evs) /\ spec_step (abs x) t (IncrF inc) <> (abs x', evs) /\
-  evs = [Ret t RC_SUCCESS (Some two60)] /\ data_of (word x') = 0.
-Proof. exact incrF_wrap_refuted_l. Qed.
-Print Assumptions incrF_wrap_refuted.
+(* incrF returns the new value of the variable (the regression case of /repo 70f90aa, payload 2^60-1 + 1 -> 0, is
+   Syncvar/Examples.v incrF_wrap_regression and corpus/C03/05_incrF_wrap.txt) *)
+Theorem incrF_returns_new_value : forall x t inc x' evs,
+  shape x -> step_var x t (IncrF inc) = (x', evs) ->
+  hd Fault evs = Ret t RC_SUCCESS (Some (data_of (word x'))) /\ data_of (word x') = wrap60 (data_of (word x) + inc).
+Proof. exact incrF_returns_new_value_l. Qed.
+Print Assumptions incrF_returns_new_value.
